@@ -10,6 +10,8 @@
 (*   s7 : --tag final --tag-num on a final version not refused (fixed: off)*)
 (*   s12: a pattern whose parts are all zero renders as the empty text,     *)
 (*        literal text included (the root is dropped like a group)          *)
+(*   s16: legacy {dom_short} lists its alternatives shortest first and      *)
+(*        {doy_short} recognises only the padded form                        *)
 (***************************************************************************)
-Dev == [s6 |-> FALSE, s7 |-> FALSE, s12 |-> TRUE]
+Dev == [s6 |-> FALSE, s7 |-> FALSE, s12 |-> TRUE, s16 |-> FALSE]
 =============================================================================
